@@ -32,7 +32,8 @@ AXES = {
     "padding": [1, 1.5, 3],
     "RoundPadding": ["false"],
     "impedance": ["VacuumGap=0", "VacuumGap=-0.03", "VacuumGap=0.03|UseCSR=true", "WallConductivity=1.4e6", "Impedance=@z_long", "Impedance=@z_equal", "Impedance=@z_short", "Impedance=@z_empty"],
-    "InitialDistFile": ["@start_txt", "@start_h5_same", "@start_h5_other", "@start_h5_two", "@start_h5_trunc", "@start_txt_outside"],
+    "InitialDistFile": ["@start_txt", "@start_h5_same", "@start_h5_other", "@start_h5_two", "@start_h5_trunc", "@start_txt_outside",
+                        "@start_h5_same|InitialDistStep=0", "@start_h5_same|InitialDistStep=7", "@start_h5_same|InitialDistStep=-9", "@start_h5_same|InitialDistStep=-2"],
     "RenormalizeCharge": [-1, 3],
     "outstep": [0, 3],
     "SavePhaseSpace": [0, 2],
